@@ -437,12 +437,14 @@ def _create_norm_union(args: VarTuple[BaseNormType]) -> BaseNormType:
 
 
 def _dedup(inp: Iterable[T]) -> Iterable[T]:
+    # literal values are distinguished by type as well as by value (0 is not False), as typing.Literal does
     in_set = set()
     result = []
     for item in inp:
-        if item not in in_set:
+        key = (type(item), item)
+        if key not in in_set:
             result.append(item)
-            in_set.add(item)
+            in_set.add(key)
     return result
 
 
